@@ -47,7 +47,7 @@ def extract_atom(
         formatted_expression = (
             format(expression, f".{decimal_digits}f")
             if not round(float(expression), decimal_digits).is_integer()
-            else f"{int(expression)}"
+            else f"{int(round(float(expression), decimal_digits))}"
         )
         if should_remove_trailing_zeros:
             return formatted_expression if float(formatted_expression) != 0 else None
